@@ -11,7 +11,7 @@ import collections
 from .. import e3, genpipe, loader, values, wellformed
 from ..xtypes import resolve
 
-STYLES = ("explicit", "mixed")
+STYLES = ("explicit",)  # xs:boolean is lower-case; other capitalisations are not part of the grammar
 
 
 def spell(node, style, env):
